@@ -554,7 +554,7 @@ class CSSMatch(_DocumentNav):
 
         self.assert_valid_input(scope)
         self.tag = scope
-        self.cached_meta_lang = []  # type: list[tuple[str, str]]
+        self.cached_meta_lang = []  # type: list[tuple[str, str | None]]
         self.cached_default_forms = []  # type: list[tuple[bs4.Tag, bs4.Tag]]
         self.cached_indeterminate_forms = []  # type: list[tuple[bs4.Tag, str, bool]]
         self.selectors = selectors
@@ -1256,13 +1256,18 @@ class CSSMatch(_DocumentNav):
                 break
 
         # Use cached meta language.
+        cached = False
         if found_lang is None and self.cached_meta_lang:
             for cache in self.cached_meta_lang:
                 if root is cache[0]:
+                    cached = True
                     found_lang = cache[1]
 
         # If we couldn't find a language, and the document is HTML, look to meta to determine language.
-        if found_lang is None and (not self.is_xml or (has_html_namespace and root and root.name == 'html')):
+        if (
+            found_lang is None and not cached and
+            (not self.is_xml or (has_html_namespace and root and root.name == 'html'))
+        ):
             # Find head
             found = False
             for tag in ('html', 'head'):
@@ -1293,7 +1298,7 @@ class CSSMatch(_DocumentNav):
                     if found_lang is not None:
                         break
                 if found_lang is None:
-                    self.cached_meta_lang.append((cast(str, root), ''))
+                    self.cached_meta_lang.append((cast(str, root), None))
 
         # If we determined a language, compare.
         if found_lang is not None:
